@@ -24,10 +24,26 @@ theorem lemma_cw_write_und (sn : Sniff) (w : CW) (d : Bytes) (hd : w.decided = f
   rw [lemma_implicitOK, lemma_cw_writeHeader_idem w 200 (Or.inr hs)]
   simp [hd]
 
+theorem lemma_restoreTrailers_enc (w : CW) : w.restoreTrailers.enc = w.enc := by
+  unfold CW.restoreTrailers
+  cases w.trailers with
+  | none => rfl
+  | some p => rfl
+
+theorem lemma_restoreHeader_enc (w : CW) : w.restoreHeader.enc = w.enc := by
+  unfold CW.restoreHeader
+  cases w.committed <;> rfl
+
+theorem lemma_initCompression_enc (w : CW) : w.initCompression.enc = w.enc := by
+  unfold CW.initCompression
+  simp only
+  split <;> rfl
+
 theorem lemma_start_enc (sn : Sniff) (w : CW) (pending : Bytes) (c : Bool) :
     (w.start sn pending c).1.enc = w.enc := by
-  unfold CW.start CW.restoreHeader CW.restoreTrailers CW.initCompression
-  cases hcm : w.committed <;> simp <;> split <;> split <;> (try split) <;> simp
+  unfold CW.start
+  simp only [apply_ite Prod.fst, apply_ite CW.enc, lemma_restoreTrailers_enc, lemma_initCompression_enc,
+    lemma_restoreHeader_enc, ite_self]
 
 /-- Write in the undecided phase once a status is recorded -/
 theorem lemma_und_write1 (sn : Sniff) (w : CW) (p : Base) (d : Bytes) (h : UndRel sn w p)
